@@ -732,6 +732,76 @@ def exhaustive_conversions(ctx, depths):
             ctx.failed_obligations.append(f"Float32 conversion model differs from the implementation at depth {b} ({dev_model} values)")
 
 
+def loading_campaign(ctx, orc):
+    import feedlib as fl
+    rng = ctx.rng
+    imgs = []
+    for _ in range(12 if ctx.quick else 150):
+        img, frames = fl.gen_multiframe(rng)
+        fl.cap_depth(img)
+        img["anim"] = None
+        for f in frames:
+            f["dur"] = 0                      # layers of ONE keyframe: a partly loaded frame falls back to the layers below
+            f.pop("tocperm", None)
+        imgs.append((img, frames))
+    plans = [pl.plan_line(i, f) for i, f in imgs]
+    encs = run_lines_robust([MODEL_EXE, "enc"], plans, per_line_timeout=60)
+    lines, meta = [], []
+    for (img, frames), plan, e in zip(imgs, plans, encs):
+        r = pl.parse_enc_output(e) if e and e.startswith("ok") else None
+        if r is None:
+            continue
+        hexs, n = r[0], len(r[0]) // 2
+        o, iw, ih = img["orient"], img["w"], img["h"]
+        W, H = (iw, ih) if o <= 4 else (ih, iw)
+        cuts = sorted({rng.randint(n // 4, n) for _ in range(10 if ctx.quick else 30)})
+        for cut in cuts:
+            rw, rh = rng.randint(1, W), rng.randint(1, H)
+            region = None if rng.random() < 0.25 else (rng.randint(0, W - rw), rng.randint(0, H - rh), rw, rh)
+            case = {"img": img, "frames": frames, "region": region, "specs": ["W"], "spot": None, "cmyk": False, "tag": "loading"}
+            reg = "full" if not region else ",".join(map(str, region))
+            lines.append(f"loading {hexs} cut={cut} region={reg} chunks=W")
+            meta.append((case, plan, cut))
+    outs = run_lines_robust([ctx.harness_bin("c15")], lines, per_line_timeout=30)
+    for (case, plan, cut), ln, o in zip(meta, lines, outs):
+        o = o or "crash"
+        replay = {"plan": plan if len(plan) < 6000 else plan[:6000] + "...", "cut": cut, "region": case["region"],
+                  "harness_line": ln if len(ln) < 8000 else ln[:8000] + "...",
+                  "how": "echo '<harness_line>' | harness/target/debug/c15   (plan -> lean/.lake/build/bin/jxlmodel enc)"}
+        ctx.case(("loading", ln), nontrivial=not o.startswith("skip"))
+        if o.startswith("skip"):
+            ctx.count("loading:" + o.split()[1][:24])
+            continue
+        if o.startswith("panic") or o.startswith("crash") or o == "hang":
+            site = norm_site(o.split()[1]) if len(o.split()) > 1 else o
+            ctx.violation("render-panic-or-hang", o[:300], replay, key=f"{o.split()[0]}:{site}")
+            continue
+        try:
+            res = parse_render(o)
+            probs = orc.check(case, res, replay, "loading")
+        except (ParseErr, ValueError, IndexError, RuntimeError) as e:
+            ctx.failed_obligations.append(f"loading: harness answer unusable ({e!r}): {o[:120]}")
+            continue
+        ctx.count("loading:rendered")
+        seen = set()
+        for kind, detail, key in probs:
+            if kind == "render-failed":        # the second request may still say need-more-data
+                ctx.count("loading:second-request-" + str(detail.get("what"))[:30])
+                continue
+            if kind == "unoriented-channel-size":
+                # a loading frame that is not composed onto the canvas keeps its own (frame sized) grids: the
+                # oracle cannot place them without the frame offset, which the API does not expose
+                ctx.count("loading:grids-are-frame-sized(not judged)")
+                continue
+            if (kind, key) in seen:
+                continue
+            seen.add((kind, key))
+            ctx.count("oracle:" + kind)
+            ctx.violation(kind, dict(detail, of="render_loading_frame"), replay, key="loading:" + key)
+        if not probs:
+            ctx.count("oracle:ok")
+
+
 def run(ctx):
     # 1. regenerate the maps from the source; a construct that cannot be read is a broken tie
     try:
@@ -908,6 +978,10 @@ def run(ctx):
             if ust == "ok" and "err" not in res["K"][kidx]:
                 plines.append(predict_line(c, res, kidx))
                 pmeta.append((len(parsed) - 1, kidx, replay, probs))
+    # 1b. the same oracle on `render_loading_frame()` of a partly fed multi-frame image (layers with their own
+    # offsets): the forms must describe the grids that render holds, wherever the stream was cut
+    if have_model and not replaying:
+        loading_campaign(ctx, orc)
     # 2. model vs implementation
     if have_model and plines:
         preds = run_lines_robust([MODEL_EXE, "c15"], plines, per_line_timeout=120)
